@@ -5,10 +5,10 @@ CONSTANTS
   Inits <- Inits01
   PushIn <- WireNeg
   CheckCas = FALSE
-  CheckObj = TRUE
-  AtomicMode = "txn"
-  LocalCheckObj = TRUE
-  LocalAtomicMode = "txn"
+  CheckObj = FALSE
+  AtomicMode = "hooks"
+  LocalCheckObj = FALSE
+  LocalAtomicMode = "none"
   KeepHist = FALSE
   Emit = FALSE
 INVARIANT StatusExact
